@@ -224,6 +224,121 @@ def agree_config(h, name, n, trail):
     h.equal('np==jax', np.asarray(a), np.asarray(b))
 
 
+def nonlinear_config(h, mesh, spec, which, free=None):
+    """NonlinearForm at a SYMBOLIC linearisation point: Jacobian == hand-linearised bilinear form, rhs == minus the residual;
+    integrands linear in the unknown reduce to ordinary assembly."""
+    import warnings
+    import skfem as S
+    from engine.zoo import make_mesh
+    from checks.c09 import make_elem
+    with warnings.catch_warnings():
+        warnings.simplefilter('ignore')
+        m = make_mesh(h, mesh, free=free)
+        e = make_elem(spec)
+        basis = S.CellBasis(m, e)
+        N = int(basis.N)
+        dt = object if h.sym_mode else np.float64
+        u0 = h.sym('u', (N,), nominal=(np.arange(N) * 3 % 5) * 0.25 - 0.5)
+        if h.sym_mode:
+            from engine import stubs_jax
+            stubs_jax.install(h)
+        from skfem.autodiff import NonlinearForm
+        import skfem.autodiff.helpers as ah
+        import skfem.helpers as nh
+        if which == 'cubic':
+            nl = lambda u, v, w: (1 + u * u) * ah.dot(ah.grad(u), ah.grad(v)) + u ** 3 * v - w.x[0] * v
+            lin = lambda du, v, w: ((1 + w.p * w.p) * nh.dot(nh.grad(du), nh.grad(v)) + 2 * w.p * du * nh.dot(nh.grad(w.p), nh.grad(v))
+                                    + 3 * w.p * w.p * du * v)
+            res = lambda v, w: (1 + w.p * w.p) * nh.dot(nh.grad(w.p), nh.grad(v)) + w.p ** 3 * v - w.x[0] * v
+        elif which == 'linear':
+            nl = lambda u, v, w: ah.dot(ah.grad(u), ah.grad(v)) + 2 * u * v.grad[0] - v
+            lin = lambda du, v, w: nh.dot(nh.grad(du), nh.grad(v)) + 2 * du * v.grad[0]
+            res = lambda v, w: nh.dot(nh.grad(w.p), nh.grad(v)) + 2 * w.p * v.grad[0] - v
+        else:
+            raise ValueError(which)
+        F = NonlinearForm(nl, dtype=dt)
+        if h.sym_mode:
+            (idx, data, shape, _), (idx1, data1, shape1, _) = F._assemble(basis, x=u0)
+            J = np.zeros(tuple(int(x) for x in shape), dtype=object)
+            for r, c, d in zip(idx[0], idx[1], data):
+                J[r, c] = J[r, c] + d
+            rhs = np.zeros(N, dtype=object)
+            for r, d in zip(idx1[0], data1):
+                rhs[r] = rhs[r] + d
+        else:
+            Jm, rhs = F.assemble(basis, x=np.asarray(u0, dtype=float))
+            J = Jm.toarray()
+        p0 = basis.interpolate(u0)
+        Bi = S.BilinearForm(lin, dtype=dt)
+        Li = S.LinearForm(res, dtype=dt)
+        if h.sym_mode:
+            (ri, ci), di, shp, _ = Bi._assemble(basis, p=p0)
+            Jh = np.zeros((N, N), dtype=object)
+            for r, c, d in zip(ri, ci, di):
+                Jh[r, c] = Jh[r, c] + d
+            o = Li._assemble(basis, p=p0)
+            rh = np.zeros(N, dtype=object)
+            for r, d in zip(np.asarray(o[0]).reshape(-1), o[1]):
+                rh[r] = rh[r] + d
+        else:
+            Jh = Bi.assemble(basis, p=p0).toarray()
+            rh = Li.assemble(basis, p=p0)
+        h.sample(dict(mesh=mesh, element=spec, integrand=which, N=N))
+        h.equal('Jacobian == hand-linearised bilinear form (rows = test functions)', J, Jh, scale=None if h.sym_mode else max(1.0, float(np.abs(Jh).max())))
+        h.equal('right-hand side == minus the residual', np.asarray(rhs), -np.asarray(rh))
+        if which == 'linear':
+            A = S.BilinearForm(lin, dtype=dt)
+            h.concrete('shape', np.shape(J) == (N, N))
+        if h.sym_mode and which == 'cubic':
+            h.canary('canary: Jacobian without the derivative of the coefficient', J - _drop_term(h, basis, p0, N, nh, S, dt))
+
+
+def nonlinear_floatpath_config(h, mesh, spec, scale):
+    """The real NonlinearForm.assemble (real JAX, float64) on a mesh scaled by a power of two against the hand-linearised form
+    assembled by the ordinary BilinearForm in float64: relative agreement 1e-9 (a concrete comparison; physical scale must not matter)."""
+    import warnings
+    import skfem as S
+    from engine import stubs_misc
+    from engine.zoo import topo
+    from checks.c09 import make_elem
+    with warnings.catch_warnings():
+        warnings.simplefilter('ignore')
+        cname, p, t = topo(mesh)
+        ctx = stubs_misc.plain_numpy() if h.sym_mode else None
+        if ctx:
+            ctx.__enter__()
+        try:
+            from skfem.autodiff import NonlinearForm
+            import skfem.autodiff.helpers as ah
+            import skfem.helpers as nh
+            m = getattr(S, cname)(p * float(scale), t)
+            basis = S.CellBasis(m, make_elem(spec))
+            N = basis.N
+            u0 = (np.arange(N) * 3 % 5) * 0.25 - 0.5
+            nl = lambda u, v, w: (1 + u * u) * u * v + ah.dot(ah.grad(u), ah.grad(v)) * float(scale) ** 2
+            lin = lambda du, v, w: (1 + 3 * w.p * w.p) * du * v + nh.dot(nh.grad(du), nh.grad(v)) * float(scale) ** 2
+            J, rhs = NonlinearForm(nl).assemble(basis, x=u0)
+            Jh = S.BilinearForm(lin).assemble(basis, p=basis.interpolate(u0)).toarray()
+            J = J.toarray()
+        finally:
+            if ctx:
+                ctx.__exit__(None, None, None)
+        t_ = h.sym('t', ())
+        h.zero('trivial', t_ - t_)
+        err = float(np.abs(J - Jh).max() / np.abs(Jh).max())
+        h.sample(dict(mesh=mesh, element=spec, scale=float(scale), max_entry=float(np.abs(Jh).max()), relative_error=err))
+        h.concrete('Jacobian (real JAX path) == hand-linearised form to 1e-9 relative at this scale', err <= 1e-9, 'relative error %.3e' % err)
+
+
+def _drop_term(h, basis, p0, N, nh, S, dt):
+    B = S.BilinearForm(lambda du, v, w: (1 + w.p * w.p) * nh.dot(nh.grad(du), nh.grad(v)) + 3 * w.p * w.p * du * v, dtype=dt)
+    (ri, ci), di, shp, _ = B._assemble(basis, p=p0)
+    Jh = np.zeros((N, N), dtype=object)
+    for r, c, d in zip(ri, ci, di):
+        Jh[r, c] = Jh[r, c] + d
+    return Jh
+
+
 NAMES = ['det', 'inv', 'dot', 'ddot', 'dddot', 'prod2', 'prod3', 'mul-mv', 'mul-mm', 'trace', 'transpose', 'eye',
          'identity', 'cross', 'sym_grad', 'div', 'curl', 'inner']
 JAX_NAMES = ['det', 'dot', 'ddot', 'dddot', 'prod2', 'prod3', 'mul-mv', 'mul-mm', 'trace', 'transpose', 'eye', 'sym_grad', 'div']
@@ -247,16 +362,24 @@ def build_configs(tier, seed):
             for name in ('det', 'dot', 'ddot', 'prod', 'mul', 'trace', 'transpose', 'eye'):
                 cfgs.append(dict(name='agree/%s/n=%d/trail=%s' % (name, n, 'x'.join(map(str, T))), fn=agree_config,
                                  kw=dict(name=name, n=n, trail=T)))
+    # NonlinearForm with a symbolic linearisation point (jax.linearize replaced by a forward-mode stand-in)
+    for mesh, spec, free in [('tri2', 'ElementTriP1', [3]), ('line3perm', 'ElementLineP2', None)] + ([] if tier == 'quick' else [('tri2', 'ElementTriP2', [3])]):
+        for which in ('cubic', 'linear'):
+            cfgs.append(dict(name='nonlinear/%s/%s/%s' % (mesh, spec, which), fn=nonlinear_config, kw=dict(mesh=mesh, spec=spec, which=which, free=free),
+                             opts=dict(timeout=900)))
+    for scale in (1.0, 2.0 ** -24):
+        cfgs.append(dict(name='nonlinear-floatpath/tri2/ElementTriP1/scale=%g' % scale, fn=nonlinear_floatpath_config,
+                         kw=dict(mesh='tri2', spec='ElementTriP1', scale=scale), opts=dict(timeout=600)))
     return cfgs
 
 
 META = dict(
     explanation='Every helper of skfem/helpers.py and skfem/autodiff/helpers.py is executed on tensors whose entries are '
                 'symbolic reals; z3 decides equality with the index-sum definition (Leibniz determinant, A inv(A) = I under '
-                'det != 0, Levi-Civita cross/curl, ...) for all entry values, and NumPy variant == JAX variant.',
+                'det != 0, Levi-Civita cross/curl, ...) for all entry values, and NumPy variant == JAX variant.  NonlinearForm._assemble runs at a SYMBOLIC linearisation point with jax.linearize replaced by a forward-mode stand-in: Jacobian == hand-linearised bilinear form, right-hand side == minus the residual, linear integrands reduce to ordinary assembly.',
     symbolic='all tensor entries',
     bounds=dict(shapes='2x2 and 3x3 tensors, vectors of length 2/3; trailing axes (1,1) [quick] + (2,3), (2,) [thorough]'),
-    outside=['NonlinearForm / jax.linearize bookkeeping (JAX tracing cannot carry solver terms)', 'JAX own differentiation',
+    outside=['JAX own tracing and differentiation (jax.linearize/jvp are replaced by a stand-in honouring their contract)', 'the hessian option of NonlinearForm', 'vector/composite NonlinearForms',
              'float rounding'],
     stubs=[],
     assumptions=['jnp.einsum/array/zeros_like are interpreted by their NumPy namesakes when the JAX helper source runs symbolically; '
